@@ -1995,10 +1995,11 @@ class State(object):
                 new_src = self.get_representative_expr(src)
             if dst.is_mem():
                 new_ptr = self.get_representative_expr(dst.ptr)
-                new_dst = ExprMem(new_ptr, dst.size)
+                # Simplify the pointer only: simplifying the ExprMem itself
+                # may return a non-assignable expression (ExprCond of ExprMem)
+                new_dst = ExprMem(expr_simp(new_ptr), dst.size)
             else:
                 new_dst = dst
-            new_dst = expr_simp(new_dst)
             new_src = expr_simp(new_src)
             new_out[new_dst] = new_src
 
